@@ -17,7 +17,64 @@ Import ListNotations.
 Open Scope Z_scope.
 
 Inductive src := SFib (x : nat) | SAnd (x y : nat).
-Record level := { l_pop : bool; l_src : src }.
+(* l_ufmt / l_zufmt: the rank of the input tensors / of the populated tensor at this level is
+   declared uncompressed ("U", Tensor.setFormat); l_proj = Some k: the level is
+       for n, (z_ref, v) in (z_i << x_i.project(lambda c: c + k, rank_id=<z's rank>, tick=True))
+                                .iterOccupancy(tick=False)
+   (x's rank has its own id, 50 + i; z's rank is only matched to it) *)
+Record level := { l_pop : bool; l_src : src; l_ufmt : bool; l_zufmt : bool; l_proj : option Z;
+                  l_shape : Z (* shape of the input tensors' rank at this level *) }.
+
+Definition K_PROJ := 5.
+
+(* ---------------------------------------------------------------- Metrics.getLabel state
+   fiber_label, the registered ranks, rank_matches and all_rank_matches (as pairs), as far as
+   the label numbering depends on them (metrics.py:325-361, 465-534, 259-281) *)
+Record lab := { lb_cnt : list (Z * Z); lb_reg : list Z; lb_rm : list (Z * Z); lb_all : list (Z * Z) }.
+
+Definition lab0 : lab := {| lb_cnt := []; lb_reg := []; lb_rm := []; lb_all := [] |}.
+
+Fixpoint cnt_set (r v : Z) (m : list (Z * Z)) : list (Z * Z) :=
+  match m with
+  | [] => [(r, v)]
+  | (r', v') :: m' => if r =? r' then (r, v) :: m' else (r', v') :: cnt_set r v m'
+  end.
+Definition memZ (r : Z) (l : list Z) : bool := existsb (Z.eqb r) l.
+
+(* getLabel *)
+Definition lab_get (ls : lab) (r : Z) : Z * lab :=
+  let ir := if memZ r (lb_reg ls) then r
+            else match lookup_rm r (lb_rm ls) with Some d => d | None => r end in
+  let v := match lookup_rm ir (lb_cnt ls) with Some v => v | None => 0 end in
+  (v, {| lb_cnt := cnt_set ir (v + 1) (lb_cnt ls); lb_reg := lb_reg ls; lb_rm := lb_rm ls;
+         lb_all := lb_all ls |}).
+
+Definition partners (r : Z) (all : list (Z * Z)) : list Z :=
+  flat_map (fun ab => if fst ab =? r then [snd ab] else if snd ab =? r then [fst ab] else []) all.
+
+(* registerRank: the ranks newly matched to r, and the new state *)
+Definition lab_reg (ls : lab) (r : Z) : list Z * lab :=
+  if memZ r (lb_reg ls) then ([], ls)
+  else
+    let srcs := partners r (lb_all ls) in
+    (srcs, {| lb_cnt := cnt_set r 0 (lb_cnt ls); lb_reg := lb_reg ls ++ [r];
+              lb_rm := fold_left (fun m s => cnt_set s r m) srcs (lb_rm ls); lb_all := lb_all ls |}).
+
+Definition lab_end (ls : lab) (r : Z) : lab :=
+  {| lb_cnt := cnt_set r 0 (lb_cnt ls); lb_reg := lb_reg ls; lb_rm := lb_rm ls; lb_all := lb_all ls |}.
+
+(* matchRanks (pairs only; no transitive closure is needed by the nests) *)
+Definition lab_match (ls : lab) (a b : Z) : lab :=
+  if existsb (fun ab => ((fst ab =? a) && (snd ab =? b)) || ((fst ab =? b) && (snd ab =? a))) (lb_all ls)
+  then ls
+  else {| lb_cnt := lb_cnt ls; lb_reg := lb_reg ls; lb_rm := lb_rm ls; lb_all := lb_all ls ++ [(a, b)] |}.
+
+Definition reg_events (r : Z) (srcs : list Z) : list mev := EReg r :: map (fun s => EStartM s r) srcs.
+
+(* what is threaded through the nest: the populated sub-tree and the label state *)
+Record thr := { th_z : option tree; th_lab : lab }.
+Definition with_z (t : thr) (z : option tree) : thr := {| th_z := z; th_lab := th_lab t |}.
+Definition with_lab (t : thr) (l : lab) : thr := {| th_z := th_z t; th_lab := l |}.
 
 Definition env := list tree.
 Definition sub (e : env) (x : nat) : fib :=
@@ -32,7 +89,14 @@ Fixpoint set_nth (x : nat) (t : tree) (e : env) : env :=
 (* what iterRange(tick=False) offers: the non-empty stored elements (iterators.py:165-179) *)
 Definition offered (es : fib) : fib := present 0 es.
 
-Definition body_t := Z -> env -> option tree -> list mev * option tree.
+(* an uncompressed fiber offers every coordinate of its shape (iterRangeShape, iterators.py:190-226);
+   only used at the leaf rank, where the absent payload is the scalar default *)
+Definition dense (shape : Z) (es : fib) : fib :=
+  map (fun c => (c, match lookup c es with Some t => t | None => Leaf 0 end)) (iota (Z.to_nat shape)).
+Definition offered_f (ufmt : bool) (shape : Z) (es : fib) : fib :=
+  if ufmt then dense shape es else offered es.
+
+Definition body_t := Z -> env -> thr -> list mev * thr.
 
 Definition opt_ev (b : bool) (e : mev) : list mev := if b then [e] else [].
 
@@ -68,13 +132,14 @@ Fixpoint and_go (r la lb : Z) (ta tb : bool) (xs ys : fib) (apos bpos : Z) (pre 
 
 (* the stream a source offers to a consumer that pulls it with tick=False:
    (events of the pull, coordinate, environment for the body) *)
-Definition src_stream (tr : tkey -> bool) (r : Z) (lbl : Z) (s : src) (e : env)
-  : list (list mev * (Z * env)) * list mev :=
+Definition src_stream (tr : tkey -> bool) (ufmt : bool) (shape : Z) (r : Z) (la lb : Z) (s : src)
+  (e : env) : list (list mev * (Z * env)) * list mev :=
   match s with
-  | SFib x => (map (fun ct => ([], (fst ct, set_nth x (snd ct) e))) (offered (sub e x)), [])
+  | SFib x => (map (fun ct => ([], (fst ct, set_nth x (snd ct) e)))
+                   (offered_f ufmt shape (sub e x)), [])
   | SAnd x y =>
-    let res := and_go r lbl (lbl + 1) (tr (r, K_INT, lbl)) (tr (r, K_INT, lbl + 1))
-                      (offered (sub e x)) (offered (sub e y)) 0 0 [] in
+    let res := and_go r la lb (tr (r, K_INT, la)) (tr (r, K_INT, lb))
+                      (offered_f ufmt shape (sub e x)) (offered_f ufmt shape (sub e y)) 0 0 [] in
     (map (fun pc => (fst pc, (fst (snd pc),
                               set_nth y (snd (snd (snd pc))) (set_nth x (fst (snd (snd pc))) e))))
          (fst res), snd res)
@@ -85,31 +150,39 @@ Definition src_stream (tr : tkey -> bool) (r : Z) (lbl : Z) (s : src) (e : env)
    iterRange, the events of the body, iterRange's incIter, and what the generator does when it
    is resumed (it_post).  it_env / it_zin: what the body was given. *)
 Record item := {
-  it_pre : list mev; it_c : Z; it_j : Z; it_env : env; it_zin : option tree;
+  it_pre : list mev; it_c : Z; it_j : Z; it_env : env; it_zin : thr;
   it_body : list mev; it_post : list mev }.
 
 Definition flat_item (r : Z) (it : item) : list mev :=
   it_pre it ++ [EUse r (it_c it) (it_j it) K_ITER 0] ++ it_body it ++ [EInc r] ++ it_post it.
 Definition flat_items (r : Z) (items : list item) : list mev := flat_map (flat_item r) items.
 
-(* ------------------------------------------- for c, p in <eager fiber>  (iterRange:122-188)
-   j counts all stored elements; empty ones are skipped without a row *)
-Fixpoint iter_plain (x : nat) (e : env) (body : body_t) (es : fib) (j : Z)
-  (z : option tree) : list item * option tree :=
+(* the labels a source draws when it is first pulled: `&` draws two, a fiber none *)
+Definition src_labels (ls : lab) (r : Z) (s : src) : Z * Z * lab :=
+  match s with
+  | SFib _ => (0, 0, ls)
+  | SAnd _ _ => let g1 := lab_get ls r in let g2 := lab_get (snd g1) r in (fst g1, fst g2, snd g2)
+  end.
+
+(* ------------------------------------------- for c, p in <eager fiber>  (iterRange:122-188,
+   iterRangeShape:190-226).  j counts all stored elements; in a compressed fiber the empty ones
+   are skipped without a row (skip = true), an uncompressed one yields every coordinate *)
+Fixpoint iter_plain (skip : bool) (x : nat) (e : env) (body : body_t) (es : fib) (j : Z)
+  (z : thr) : list item * thr :=
   match es with
   | [] => ([], z)
   | (c, t) :: es' =>
-    if is_empty 0 t then iter_plain x e body es' (j + 1) z
+    if skip && is_empty 0 t then iter_plain skip x e body es' (j + 1) z
     else
       let b := body c (set_nth x t e) z in
-      let rest := iter_plain x e body es' (j + 1) (snd b) in
+      let rest := iter_plain skip x e body es' (j + 1) (snd b) in
       ({| it_pre := []; it_c := c; it_j := j; it_env := set_nth x t e; it_zin := z;
           it_body := fst b; it_post := [] |} :: fst rest, snd rest)
   end.
 
 (* ------------------------------------------- for c, p in <lazy fiber>  (iterRange, isLazy) *)
 Fixpoint iter_lazy (body : body_t) (els : list (list mev * (Z * env))) (j : Z)
-  (z : option tree) : list item * option tree :=
+  (z : thr) : list item * thr :=
   match els with
   | [] => ([], z)
   | (pre, (c, e')) :: els' =>
@@ -190,10 +263,11 @@ Fixpoint shift_phase (r la : Z) (rt wt : bool) (insert_pos len : Z) (els : fib) 
 
 (* one source element: events before the yield, the body, events after it.
    zleaf: payloads of this z fiber are leaves; insert_pos: authoritative shape of the rank *)
-Definition pop_elem (r la lb : Z) (rt wt bt zleaf : bool) (insert_pos : Z)
+Definition pop_elem (r la lb : Z) (rt wt bt zleaf cmpr : bool) (insert_pos : Z)
   (bpos : Z) (c : Z) (st : pst) : list mev * Z * bool * tree * pst :=
   let zes := p_z st in
-  let ins := if (bpos =? 0)
+  (* 1149-1150: only a compressed destination can be inserting *)
+  let ins := if (bpos =? 0) && cmpr
              then match last_coord zes with Some m => c <? m | None => p_ins st end
              else p_ins st in
   let ev1 := opt_ev bt (EUse r c bpos K_POP lb) in
@@ -239,17 +313,19 @@ Definition pop_post (r la : Z) (wt : bool) (insert_pos : Z) (c : Z) (new : bool)
             p_toins := p_toins st; p_isp := p_isp st |}).
 
 (* the populate generator wrapped by the lazy iterRange of the `for` statement *)
-Fixpoint pop_loop (r la lb : Z) (rt wt bt zleaf : bool) (insert_pos : Z) (body : body_t)
-  (els : list (list mev * (Z * env))) (j : Z) (st : pst) : list item * pst :=
+Fixpoint pop_loop (r la lb : Z) (rt wt bt zleaf cmpr : bool) (insert_pos : Z) (body : body_t)
+  (els : list (list mev * (Z * env))) (j : Z) (st : pst) (ls : lab) : list item * (pst * lab) :=
   match els with
-  | [] => ([], st)
+  | [] => ([], (st, ls))
   | (pre, (c, e')) :: els' =>
-    let '(ev, apos, new, zref, st1) := pop_elem r la lb rt wt bt zleaf insert_pos j c st in
-    let b := body c e' (Some zref) in
-    let zref' := match snd b with Some t => t | None => zref end in
+    let '(ev, apos, new, zref, st1) := pop_elem r la lb rt wt bt zleaf cmpr insert_pos j c st in
+    let zin := {| th_z := Some zref; th_lab := ls |} in
+    let b := body c e' zin in
+    let zref' := match th_z (snd b) with Some t => t | None => zref end in
     let post := pop_post r la wt insert_pos c new zref' st1 in
-    let rest := pop_loop r la lb rt wt bt zleaf insert_pos body els' (j + 1) (snd post) in
-    ({| it_pre := pre ++ ev; it_c := c; it_j := j; it_env := e'; it_zin := Some zref;
+    let rest := pop_loop r la lb rt wt bt zleaf cmpr insert_pos body els' (j + 1) (snd post)
+                         (th_lab (snd b)) in
+    ({| it_pre := pre ++ ev; it_c := c; it_j := j; it_env := e'; it_zin := zin;
         it_body := fst b; it_post := fst post |} :: fst rest, snd rest)
   end.
 
@@ -259,44 +335,111 @@ Definition pop_final (r la : Z) (rt wt : bool) (insert_pos : Z) (st : pst) : lis
                 (rev (offered (skipnZ (p_isp st) (p_z st)))) 0 (p_toins st)
   else [].
 
+(* the same calls made for a rank that is only matched to the loop rank *)
+Definition to_m (e : mev) : mev :=
+  match e with
+  | EUse r c pos k l => EUseM r c pos k l
+  | EUseS r c pos k l s => EUseSM r c pos k l s
+  | EInc r => EIncM r
+  | EBump s r => EBumpM s r
+  | _ => e
+  end.
+
+(* ------------------------------------------- z_i << x_i.project(c -> c + k, rank_id=<z's rank>,
+   tick=True), consumed with iterOccupancy(tick=False)   (fiber.py:1275-1330, iterators.py:1095-1283)
+   rz: z's rank (matched), rs: x's rank (the loop rank).  es: stored elements of x_i, j their
+   positions; the populate generator sees the offered ones at b_pos = 0, 1, ... *)
+Fixpoint proj_loop (rz rs la lb lp : Z) (rt wt bt ptr zleaf cmpr : bool) (insert_pos k : Z)
+  (x : nat) (e : env) (body : body_t) (es : fib) (j bpos : Z) (st : pst) (ls : lab)
+  : list mev * (pst * lab) :=
+  match es with
+  | [] => ([], (st, ls))
+  | (c, t) :: es' =>
+    if is_empty 0 t then proj_loop rz rs la lb lp rt wt bt ptr zleaf cmpr insert_pos k x e body es'
+                                   (j + 1) bpos st ls
+    else
+      let '(ev, apos, new, zref, st1) :=
+          pop_elem rz la lb rt wt bt zleaf cmpr insert_pos bpos (c + k) st in
+      let zin := {| th_z := Some zref; th_lab := ls |} in
+      let b := body (c + k) (set_nth x t e) zin in
+      let zref' := match th_z (snd b) with Some t' => t' | None => zref end in
+      let post := pop_post rz la wt insert_pos (c + k) new zref' st1 in
+      let rest := proj_loop rz rs la lb lp rt wt bt ptr zleaf cmpr insert_pos k x e body es'
+                            (j + 1) (bpos + 1) (snd post) (th_lab (snd b)) in
+      ([EUse rs c j K_ITER 0] ++ map to_m ev ++ fst b ++ map to_m (fst post)
+       ++ (if ptr then [EUseS rs c bpos K_PROJ lp (rs + 1000); ESave (rs + 1000)] else [])
+       ++ [EInc rs] ++ fst rest, snd rest)
+  end.
+
 (* ------------------------------------------- one level of the nest *)
 Definition run_level (tr : tkey -> bool) (zshape : list Z) (nz : nat) (i : nat) (L : level)
-  (body : body_t) (e : env) (z : option tree) : list mev * option tree :=
+  (body : body_t) (e : env) (z : thr) : list mev * thr :=
   let r := Z.of_nat i in
+  let ish := l_shape L in
+  match l_proj L, l_src L, th_z z with
+  | Some k, SFib x, Some (Node zes) =>
+    let rs := 50 + r in
+    let g1 := lab_get (th_lab z) r in let g2 := lab_get (snd g1) r in
+    let la := fst g1 in let lb := fst g2 in
+    let rt := tr (r, K_RD, la) in let wt := tr (r, K_WR, la) in let bt := tr (r, K_POP, lb) in
+    let ip := nth i zshape 0 in
+    let ls3 := lab_match (snd g2) rs r in
+    let rg := lab_reg ls3 rs in
+    let g3 := lab_get (snd rg) rs in
+    let lp := fst g3 in
+    let res := proj_loop r rs la lb lp rt wt bt (tr (rs, K_PROJ, lp)) (Nat.eqb (S i) nz)
+                         (negb (l_zufmt L)) ip k x e body (sub e x) 0 0
+                         {| p_z := zes; p_apos := 0; p_ins := false; p_oldend := 0; p_toins := [];
+                            p_isp := 0 |} (snd g3) in
+    (reg_events rs (fst rg) ++ [ESave (rs + 1000)] ++ fst res ++ [EEnd rs]
+     ++ map to_m (pop_final r la rt wt ip (fst (snd res))),
+     {| th_z := Some (Node (p_z (fst (snd res)))); th_lab := lab_end (snd (snd res)) rs |})
+  | Some _, _, _ => ([], z)
+  | None, _, _ =>
+  let rg := lab_reg (th_lab z) r in
   if l_pop L then
-    match z with
+    match th_z z with
     | Some (Node zes) =>
-      let s := src_stream tr r 2 (l_src L) e in
-      let rt := tr (r, K_RD, 0) in let wt := tr (r, K_WR, 0) in let bt := tr (r, K_POP, 1) in
+      let g1 := lab_get (snd rg) r in let g2 := lab_get (snd g1) r in
+      let la := fst g1 in let lb := fst g2 in
+      let sl := src_labels (snd g2) r (l_src L) in
+      let s := src_stream tr (l_ufmt L) ish r (fst (fst sl)) (snd (fst sl)) (l_src L) e in
+      let rt := tr (r, K_RD, la) in let wt := tr (r, K_WR, la) in let bt := tr (r, K_POP, lb) in
       let ip := nth i zshape 0 in
-      let res := pop_loop r 0 1 rt wt bt (Nat.eqb (S i) nz) ip body (fst s) 0
+      let res := pop_loop r la lb rt wt bt (Nat.eqb (S i) nz) (negb (l_zufmt L)) ip body (fst s) 0
                    {| p_z := zes; p_apos := 0; p_ins := false; p_oldend := 0; p_toins := [];
-                      p_isp := 0 |} in
-      ([EReg r] ++ flat_items r (fst res) ++ (snd s ++ pop_final r 0 rt wt ip (snd res)) ++ [EEnd r],
-       Some (Node (p_z (snd res))))
+                      p_isp := 0 |} (snd sl) in
+      (reg_events r (fst rg) ++ flat_items r (fst res)
+         ++ (snd s ++ pop_final r la rt wt ip (fst (snd res))) ++ [EEnd r],
+       {| th_z := Some (Node (p_z (fst (snd res)))); th_lab := lab_end (snd (snd res)) r |})
     | _ => ([], z)
     end
   else
     match l_src L with
     | SFib x =>
-      let res := iter_plain x e body (sub e x) 0 z in
-      ([EReg r] ++ flat_items r (fst res) ++ [] ++ [EEnd r], snd res)
+      let es := if l_ufmt L then dense ish (sub e x) else sub e x in
+      let res := iter_plain (negb (l_ufmt L)) x e body es 0 (with_lab z (snd rg)) in
+      (reg_events r (fst rg) ++ flat_items r (fst res) ++ [] ++ [EEnd r],
+       with_lab (snd res) (lab_end (th_lab (snd res)) r))
     | SAnd _ _ =>
-      let s := src_stream tr r 0 (l_src L) e in
-      let res := iter_lazy body (fst s) 0 z in
-      ([EReg r] ++ flat_items r (fst res) ++ snd s ++ [EEnd r], snd res)
-    end.
+      let sl := src_labels (snd rg) r (l_src L) in
+      let s := src_stream tr (l_ufmt L) ish r (fst (fst sl)) (snd (fst sl)) (l_src L) e in
+      let res := iter_lazy body (fst s) 0 (with_lab z (snd sl)) in
+      (reg_events r (fst rg) ++ flat_items r (fst res) ++ snd s ++ [EEnd r],
+       with_lab (snd res) (lab_end (th_lab (snd res)) r))
+    end
+  end.
 
 (* innermost body: `if not skip(point): z_ref += 1` *)
 Definition skip_pt (m : Z) (pt : list Z) : bool := (0 <? m) && (sumZ pt mod m =? 0).
-Definition leaf_update (m : Z) (pt : list Z) (z : option tree) : option tree :=
-  match z with
-  | Some (Leaf v) => if skip_pt m pt then z else Some (Leaf (v + 1))
+Definition leaf_update (m : Z) (pt : list Z) (z : thr) : thr :=
+  match th_z z with
+  | Some (Leaf v) => if skip_pt m pt then z else with_z z (Some (Leaf (v + 1)))
   | _ => z
   end.
 
 Fixpoint run (tr : tkey -> bool) (zshape : list Z) (nz : nat) (m : Z) (lv : list level)
-  (i : nat) (pt : list Z) (e : env) (z : option tree) : list mev * option tree :=
+  (i : nat) (pt : list Z) (e : env) (z : thr) : list mev * thr :=
   match lv with
   | [] => ([], leaf_update m pt z)
   | L :: lv' =>
